@@ -212,6 +212,10 @@ def _make_path_function(jobs, path):
         # Generate a path function based on the schema detected for jobs.
         path_function = _make_schema_based_path_function(jobs=jobs)
 
+        # State point values are converted to text, so distinct values (such
+        # as 1 and '1') may map to the same path: check for a 1-1 mapping.
+        _check_path_function_unique(jobs, path_spec=path, path_function=path_function)
+
     elif path is False:
         # Just use the job id as path.
         def path_function(job):
